@@ -199,6 +199,27 @@ static std::string rw_json(const InstRWInfo& rw, int nops) {
   return s + "]";
 }
 
+// the answer must be a function of the query alone: the same query into an object that holds other content (what a caller
+// that reuses one InstRWInfo, or passes an uninitialised one as the register allocator does, hands in) must report the same
+static std::string rw_fingerprint(const InstRWInfo& rw, int nops) {
+  char b[96];
+  snprintf(b, sizeof b, "|if=%u oc=%u rm=%u rf=%u wf=%u", unsigned(rw.inst_flags()), unsigned(rw.op_count()), unsigned(rw.rm_feature()), unsigned(rw.read_flags()), unsigned(rw.write_flags()));
+  return rw_json(rw, nops) + b;
+}
+
+static std::string stale_state_diff(Arch arch, const BaseInst& bi, const Operand* ops, int nops, const InstRWInfo& clean, Error e_clean) {
+  static const uint8_t fills[2] = { 0xFF, 0xA5 };
+  for (uint8_t fill : fills) {
+    InstRWInfo dirty; memset((void*)&dirty, fill, sizeof dirty);
+    Error e = InstAPI::query_rw_info(arch, bi, ops, size_t(nops), &dirty);
+    if (e != e_clean) return "error code " + std::to_string(unsigned(e)) + " vs " + std::to_string(unsigned(e_clean));
+    if (e != Error::kOk) continue;
+    std::string a = rw_fingerprint(clean, nops), b = rw_fingerprint(dirty, nops);
+    if (a != b) return "into a zeroed object: " + a + " ; into an object pre-filled with 0x" + hexstr(&fill, 1) + ": " + b;
+  }
+  return std::string();
+}
+
 static std::string feat_json(Arch arch, const CpuFeatures& f) {
   std::string s = "[";
   bool first = true;
@@ -265,10 +286,11 @@ static int mode_table(const Args& args) {
     InstRWInfo rw; memset(&rw, 0, sizeof rw);
     CpuFeatures feat;
     Error e_rw = Error::kInvalidArgument, e_f = Error::kInvalidArgument, e_v = Error::kInvalidArgument, e_e = Error::kInvalidArgument;
-    std::string enc = "none", bytes;
+    std::string enc = "none", bytes, stale;
     if (ok && inst_id) {
       e_v = InstAPI::validate(A, bi, ops, size_t(c.nops));
       e_rw = InstAPI::query_rw_info(A, bi, ops, size_t(c.nops), &rw);
+      stale = stale_state_diff(A, bi, ops, c.nops, rw, e_rw);
       e_f = InstAPI::query_features(A, bi, ops, size_t(c.nops), &feat);
       size_t off0 = a.offset();
       if (c.extra_s != "-") a.set_extra_reg(extra);
@@ -284,6 +306,7 @@ static int mode_table(const Args& args) {
              jstr(rw.rm_feature() ? feature_name(A, rw.rm_feature()) : std::string()).c_str(), unsigned(rw.inst_flags()), bytes.c_str());
     out += b;
     out += rw_json(rw, c.nops);
+    if (!stale.empty()) out += ",\"stale\":" + jstr(stale);
     out += ",\"feat\":" + feat_json(A, feat) + "}\n";
     if (out.size() > (1 << 20)) { fwrite(out.data(), 1, out.size(), stdout); out.clear(); }
   }
@@ -991,6 +1014,10 @@ struct Runner {
     InstRWInfo rw; memset(&rw, 0, sizeof rw);
     CpuFeatures feat;
     Error e_rw = InstAPI::query_rw_info(Arch::kX64, bi, ops, size_t(c.nops), &rw);
+    {
+      std::string stale = stale_state_diff(Arch::kX64, bi, ops, c.nops, rw, e_rw);
+      if (!stale.empty()) violation("Q:" + c.name + ":" + c.sig + ":answer-depends-on-previous-content-of-out", "query_rw_info answers differently " + stale, c);
+    }
     Error e_f = InstAPI::query_features(Arch::kX64, bi, ops, size_t(c.nops), &feat);
     std::string bytes; Error e_e;
     std::string err = make_code(0, inst_id, c.opts, has_extra, extra, ops, c.nops, &bytes, &e_e);
